@@ -360,7 +360,10 @@ def c10(rec):
         return out, _cls(rec)
     c = O.cause(rec)
     kill = O.had_kill(rec)
-    timed = any(ev[0] == "T" and "worker" in ev[1] for ev in rec.trace)
+    # idle timers firing during the call (T deviations, or the zero-timeout policy) legitimately
+    # change the worker population: the size / kept-workers clauses are conditional on that
+    timed = any(ev[0] == "T" and "worker" in ev[1] for ev in rec.trace) \
+        or bool(rec.policy.get("zero_when"))
     for key, f in rec.fut.items():
         kind = rec.values[key][0]
         exp = expected(kind, key, rec.values[key][1:])
@@ -374,6 +377,11 @@ def c10(rec):
         if o["op"][0] == "reuse" and o["returned"] and o["exc"] is None and "same" in o:
             want = o["op"][1].get("max_workers")
             if o["same"] and want is not None and not o["broken"] and not kill:
+                if o.get("stale_sentinels") and not timed:
+                    out.append(dict(signature=f"C10:stale-sentinel:{o['stale_sentinels']}|cause={c}",
+                                    msg=f"resize to {want} returned leaving {o['stale_sentinels']} "
+                                        f"stop sentinel(s) in the call queue: they will shut down "
+                                        f"workers that were supposed to stay (or their replacements)"))
                 if o["n_workers"] != want and not timed:
                     out.append(dict(signature=f"C10:wrong-size:{o['n_workers']}vs{want}|cause={c}",
                                     msg=f"resize to {want} returned with {o['n_workers']} "
@@ -454,6 +462,8 @@ def c09(rec):
     pool = rec.prog.get("pool", {})
     single = len(rec.prog["threads"]) == 1
     kill = O.had_kill(rec)
+    timed = any(ev[0] == "T" and "worker" in ev[1] for ev in rec.trace) \
+        or bool(rec.policy.get("zero_when"))
     m = None          # model of the singleton: dict(id, kwargs, mw, broken, shutdown, started)
     next_id = 0
     ops = [o for o in rec.ops if o["t"] == 0] if single else []
@@ -511,7 +521,7 @@ def c09(rec):
                     out.append(dict(signature=f"C09:not-reused|cause={c}",
                                     msg=f"get_reusable_executor({kw}) built a new executor "
                                         f"although the previous one was healthy and reusable"))
-                elif m["started"] and not kill and (
+                elif m["started"] and not kill and not timed and (
                         o["n_workers"] > want_mw
                         or (o["n_workers"] != want_mw and not m.get("idle"))):
                     out.append(dict(signature=f"C09:wrong-worker-count:{o['n_workers']}vs{want_mw}"
